@@ -376,12 +376,37 @@ async def random_schedule(ex, spawn, settle):
         if not progressed:
             break
     stuck = [c for c in ex.callers if c.state != "done"]
+    if not stuck:
+        # capacity probe (C05.capacity / C07): the pool's full capacity must still be available to fresh requests
+        probes = []
+        for j in range(cfg["max_connections"]):
+            c = Caller(1000 + j, 100 + j)
+            probes.append(c)
+            ex.callers.append(c)
+            spawn(c)
+        for _ in range(60 * len(probes)):
+            await settle()
+            ch = ex.choices()
+            if not ch:
+                break
+            ch[0][1].event.set()
+        await settle()
+        lost = [c for c in probes if c.outcome != "ok"]
+        if lost:
+            ex.violations.append(("C05:capacity-lost", {"probes": [(c.idx, c.state, c.outcome) for c in probes], "snapshot": ex.snapshot()}))
+            ex.violations.append(("C07:caller-blocked-forever", {"callers": [(c.idx, c.state) for c in lost], "snapshot": ex.snapshot(),
+                                                                   "phase": "capacity-probe"}))
+            stuck = []
+            ex.probe_failed = True
+        else:
+            ex.callers = [c for c in ex.callers if c not in probes] + []
+            ex.probes_ok = True
     if stuck:
         ex.violations.append(("C07:caller-blocked-forever", {"callers": [(c.idx, c.state) for c in stuck], "snapshot": ex.snapshot()}))
     else:
         ex.check_final()
     ex.net.gated = False            # the closing operations of pool.aclose() complete at once
-    if not stuck:
+    if not stuck and not getattr(ex, "probe_failed", False):
         await ex.pool.aclose()
         await settle()
         ex.check_after_close()
@@ -408,10 +433,22 @@ def explore(ctx, rec, pid, profile, n_quick, n_thorough, want_prefixes, runtimes
     """Run random schedules; report violations whose clause starts with one of want_prefixes for this property."""
     rng = ctx.rng
     n = n_quick if ctx.quick else n_thorough
-    for i in range(n):
-        cfg = gen_cfg(rng, profile)
-        seed = rng.randrange(1 << 30)
-        rt = runtimes[i % len(runtimes)]
+    import core
+    corpus = []
+    if not getattr(ctx, "_corpus_done_" + pid, False):
+        setattr(ctx, "_corpus_done_" + pid, True)
+        for k in core.load_known():
+            ra = k.get("replay_args")
+            if k["property"] == pid and ra and ra.get("engine") == "concur":
+                corpus.append((ra["runtime"], ra["cfg"], ra["seed"]))
+    for i in range(len(corpus) + n):
+        if i < len(corpus):
+            rt, cfg, seed = corpus[i]
+            rec.dist[f"{pid}:corpus"] += 1
+        else:
+            cfg = gen_cfg(rng, profile)
+            seed = rng.randrange(1 << 30)
+            rt = runtimes[i % len(runtimes)]
         ex = run_one(rt, cfg, seed)
         rec.evals += 1
         rec.distinct.add((rt, tuple(map(str, ex.trace))))
@@ -423,8 +460,7 @@ def explore(ctx, rec, pid, profile, n_quick, n_thorough, want_prefixes, runtimes
             if not clause.startswith(tuple(want_prefixes)):
                 rec.dist["other-property:" + clause] += 1
                 continue
-            sig = {"runtime-independent": True}
-            sig.update(signature_of(clause, detail, cfg, ex))
+            sig = signature_of(clause, detail, cfg, ex)
             rec.fail(clause, sig, {"runtime": rt, "cfg": cfg, "seed": seed, "trace": [list(map(str, t)) for t in ex.trace][-60:],
                                    "detail": detail, "how_to_replay": "concur.run_one(runtime, cfg, seed)"})
         if len(rec.samples) < 6 and len(ex.trace) > 12:
@@ -438,9 +474,15 @@ def signature_of(clause, detail, cfg, ex):
     cancels = [t for t in ex.trace if t[0] == "cancel"]
     faults = [t for t in ex.trace if t[0] == "fault"]
     sig["trigger"] = "native-cancel" if any(t[2] == "native" for t in cancels) else "cancel" if cancels else "fault" if faults else "none"
+    def state_of(info):
+        return info.split(", ")[2] if info.count(", ") >= 2 else info
     if clause == "C05:connection-in-limbo":
-        info = detail.get("info", "")
-        sig["conn_state"] = info.split(", ")[2] if info.count(", ") >= 2 else info
+        sig["conn_state"] = state_of(detail.get("info", ""))
+    if clause in ("C05:capacity-lost", "C07:caller-blocked-forever"):
+        snap = detail.get("snapshot", {})
+        sig["conn_states"] = sorted(set(state_of(i) for i in snap.get("conns", [])))
+        if any(t[0] == "tick" for t in ex.trace) and sig["trigger"] in ("none", "fault", "cancel"):
+            sig["trigger"] = "pool-timeout-or-" + sig["trigger"] if sig["trigger"] != "none" else "pool-timeout"
     return sig
 
 
